@@ -213,6 +213,19 @@ def run_sql(ck):
                       "sql": worst["sql"][0][:3000],
                       "failing_input": "any database in which the dropped stage rejects a line or changes a label set, e.g. one stream matching the selector with two lines of which the stage keeps one: the reference counts 1 line per window, the SQL counts 2",
                       "replay": "harness logqlsql --cases <file with this case>"})
+    # ---- spec oracle 1b: a shortcut plan restricts the fingerprints by every label filter of the pipeline
+    lf_bad = [c for c in allc if c.get("sql") and RE_M15.search(c["sql"][0]) and c.get("n_label_filters") is not None
+              and len(set(re.findall(r"subsel_\d+", c["sql"][0]))) != c["n_label_filters"]]
+    ck.obligation("spec oracle: a plan on metrics_15s applies every label filter of the pipeline to the fingerprint selection", not lf_bad,
+                  "; ".join(c["query"] for c in lf_bad[:3]))
+    if lf_bad:
+        worst = min(lf_bad, key=lambda c: len(c["query"]))
+        ck.violation({"property": "C08", "part": "every_stage_takes_effect", "kind": "a label filter written in the query has no effect on the plan that reads the 15-second roll-up table",
+                      "case": witness_rows(worst, "%d label-filter stage(s) in the pipeline, %d fingerprint sub-selections in the SQL" % (
+                          worst["n_label_filters"], len(set(re.findall(r"subsel_\d+", worst["sql"][0]))))),
+                      "sql": worst["sql"][0][:3000],
+                      "failing_input": "two streams matching the selector of which the label filter keeps one, one line each in one window: the reference reports one series, the SQL two",
+                      "replay": "harness logqlsql --cases <file with this case>"})
     # ---- spec oracle 2: aggregate fragments read back from the implementation's SQL
     lra, agg = observations(allc)
     lv, av, cnt = eval_observations(ck, lra, agg)
